@@ -101,6 +101,8 @@ class Ref:
     on_delete: Optional[str] = None
     comment: Optional[str] = None
     form: str = 'short'       # short | block
+    api_inline: bool = False  # API-built origin only: mark this reference inline (DBML text cannot say that
+    #                           for composite / named / actioned references)
 
 
 @dataclass
